@@ -354,3 +354,147 @@ SCENARIOS += [
     Scenario("C10.adapter.dft_19_20", s_dft_adapter, [(REL, "dft_19_20"), (REL, "_get_int_attribute")]),
     Scenario("C10.adapter.gridsample_19_20", s_gridsample_adapter, [(REL, "gridsample_19_20"), (REL, "_get_str_attribute"), (REL, "_get_int_attribute")]),
 ]
+
+
+# ------------------------------------------------------------------ GroupNormalization 20->21 ---
+
+def s_groupnorm_adapter(ctx):
+    """Per-group scale/bias [G] -> per-channel [C]: the emitted chain must be Reshape([-1,1]) -> Expand([1,C/G]) ->
+    Reshape([-1]), i.e. element c of the result is scale[c // (C/G)] (row-major), for all C = G*q."""
+    from pyvc.values import SInt, term
+    import onnx_ir as ir
+    vc = _vc()
+    I = Interp(ctx)
+    G = ctx.int("G")
+    q = ctx.int("q")
+    ctx.assume(z3.And(G >= 1, q >= 1, G <= 1 << 20, q <= 1 << 20))
+    C = G * q
+    per_group = ctx.choose(2, "scale given per group") == 0
+    x = SObj(ir.Value, "x")
+    x.fields.update(shape=[Opaque("N"), SInt(C), Opaque("H")], name="x")
+    sdim = SInt(G) if per_group else SInt(C)
+    scale = SObj(ir.Value, "scale")
+    scale.fields.update(shape=[sdim], name="scale")
+    bias = SObj(ir.Value, "bias")
+    bias.fields.update(shape=[sdim], name="bias")
+    ng = SObj(ir.Attr, "num_groups")
+    ng.fields.update(name="num_groups", value=SInt(G))
+    node = SObj(ir.Node, "gn")
+    node.fields.update(op_type="GroupNormalization", domain="", inputs=[x, scale, bias], attributes={"num_groups": ng}, outputs=[])
+    op = OpRecorder()
+    clo = I.closure_of(vc.groupnormalization_20_21)
+    r = I.run_closure(clo, [node, op], {})
+    needs = z3.And(G != C)  # per-group parameters differ from per-channel ones iff G != C
+    if not per_group:
+        ctx.check("C10.adapter.groupnorm_20_21.per_channel_parameters_left_alone", r is None and not op.calls, CL_AD)
+        return
+    if r is None:
+        ctx.check("C10.adapter.groupnorm_20_21.declines_only_when_one_channel_per_group", G == C, CL_AD)
+        return
+    ctx.cover("groupnorm.rewritten")
+    consts = [c for c in op.calls if c[1] == "Constant"]
+    byid = {id(c): dict(c[3]).get("value_ints") for c in consts}
+
+    def chain(final):
+        """final = Reshape(Expand(Reshape(src, s1), e), s2) -> (src, s1, e, s2) or None"""
+        if not (isinstance(final, tuple) and final[1] == "Reshape"):
+            return None
+        ex, s2 = final[2]
+        if not (isinstance(ex, tuple) and ex[1] == "Expand"):
+            return None
+        r1, e = ex[2]
+        if not (isinstance(r1, tuple) and r1[1] == "Reshape"):
+            return None
+        src, s1 = r1[2]
+        return src, byid.get(id(s1)), byid.get(id(e)), byid.get(id(s2))
+    ok = isinstance(r, tuple) and r[1] == "GroupNormalization" and len(r[2]) == 3 and r[2][0] is x
+    ctx.check("C10.adapter.groupnorm_20_21.emits_groupnormalization_on_same_input", ok and dict(r[3]).get("num_groups") is not None
+              and z3.is_true(z3.simplify(term(dict(r[3])["num_groups"]) == G)), CL_AD)
+    if not ok:
+        return
+    for nm, src, val in (("scale", scale, r[2][1]), ("bias", bias, r[2][2])):
+        ch = chain(val)
+        okc = ch is not None and ch[0] is src and all(isinstance(v, list) for v in ch[1:])
+        ctx.check(f"C10.adapter.groupnorm_20_21.{nm}_goes_through_reshape_expand_reshape", okc, CL_AD)
+        if not okc:
+            continue
+        s1, e, s2 = ch[1:]
+        shape_ok = len(s1) == 2 and len(e) == 2 and len(s2) == 1
+        ctx.check(f"C10.adapter.groupnorm_20_21.{nm}_shapes_have_expected_rank", shape_ok, CL_AD)
+        if not shape_ok:
+            continue
+        # [G] -> [G,1] -> broadcast with [1,q] = [G,q] -> [G*q]: row-major element c = scale[c // q]
+        goal = z3.And(term(s1[0]) == -1, term(s1[1]) == 1, term(e[0]) == 1, term(e[1]) == q, term(s2[0]) == -1)
+        ctx.check(f"C10.adapter.groupnorm_20_21.{nm}_element_c_is_group_value_of_channel_c", goal,
+                  "C10: 'GroupNormalization per-group scale/bias' — Reshape([-1,1]) -> Expand([1,C/G]) -> Reshape([-1]) repeats each group value C/G times consecutively")
+
+
+# ------------------------------------------------------------------ _c_api_utils.call_onnx_api ---
+
+def s_call_onnx_api(ctx):
+    """The model is left unchanged whether the C API call succeeds or raises (bounded: <= 2 initializers)."""
+    import onnx_ir as ir
+    from onnxscript.version_converter import _c_api_utils
+    I = Interp(ctx)
+    k = ctx.choose(3, "n_initializers")
+    user_in = SObj(ir.Value, "x")
+    user_in.fields.update(name="x", const_value=None, shape=Opaque("s"), dtype=Opaque("d"))
+    inputs = [user_in]
+    inits = {}
+    recs = []
+    for j in range(k):
+        big = ctx.choose(2, f"init{j} big") == 1
+        also_input = ctx.choose(2, f"init{j} also input") == 1
+        t = SObj(ir.Tensor, f"t{j}")
+        t.fields.update(size=(5000 if big else 10), shape=Opaque("ts"), dtype=Opaque("td"))
+        v = SObj(ir.Value, f"w{j}")
+        v.fields.update(name=f"w{j}", const_value=t, shape=Opaque("s"), dtype=Opaque("d"))
+        inits[f"w{j}"] = v
+        if also_input:
+            inputs.append(v)
+        recs.append((v, t))
+    graph = SObj(ir.Graph, "graph")
+
+    def reg(v):
+        raise AssertionError
+    I.models[reg] = lambda interp, v: inits.__setitem__(v.fields["name"], v)
+    graph.fields.update(inputs=inputs, initializers=inits, register_initializer=reg)
+    model = SObj(ir.Model, "model")
+    model.fields.update(graph=graph)
+    before_inputs = list(inputs)
+    before_inits = dict(inits)
+    I.models[ir.serde.serialize_model] = lambda interp, m: Opaque("proto")
+    fails = ctx.choose(2, "C API raises") == 1
+
+    def func(p):
+        raise AssertionError
+    seen = []
+
+    def m_func(interp, p):
+        seen.append((list(inputs), dict(inits)))
+        if fails:
+            raise PyRaise(RuntimeError("onnx C API failed"))
+        return "RESULT"
+    I.models[func] = m_func
+    clo = I.closure_of(_c_api_utils.call_onnx_api)
+    raised = None
+    try:
+        r = I.run_closure(clo, [func, model], {})
+    except PyRaise as e:
+        raised = e.exc
+    tag = "when_the_api_raises" if fails else "on_success"
+    ctx.check(f"C10.c_api.call_onnx_api.graph_inputs_restored.{tag}", len(inputs) == len(before_inputs) and all(a is b for a, b in zip(inputs, before_inputs)), CL_HALF)
+    ctx.check(f"C10.c_api.call_onnx_api.initializers_restored.{tag}", inits == before_inits and all(v.fields["const_value"] is t for v, t in recs), CL_HALF)
+    if fails:
+        ctx.check("C10.c_api.call_onnx_api.exception_propagates", isinstance(raised, RuntimeError), CL_HALF)
+    else:
+        ctx.check("C10.c_api.call_onnx_api.returns_the_api_result", raised is None and r == "RESULT", CL)
+
+
+SCENARIOS += [
+    Scenario("C10.adapter.groupnorm_20_21", s_groupnorm_adapter, [(REL, "groupnormalization_20_21"), (REL, "_get_input")],
+             trusted=["ONNX Reshape(-1)/Expand broadcasting semantics (operator documentation): [G]->[G,1]->[G,q]->[G*q] row-major"],
+             assumptions=["C = G*q with 1 <= G, q <= 2**20 (GroupNormalization requires G | C)"]),
+    Scenario("C10.c_api.call_onnx_api", s_call_onnx_api, [("onnxscript/version_converter/_c_api_utils.py", "call_onnx_api")],
+             kind="bounded", bound="at most 2 initializers, each small/large and already a graph input or not; the API call succeeds or raises"),
+]
